@@ -118,7 +118,8 @@ pub struct RunInfo { pub cancelled_writes: usize, pub partials: usize, pub pendi
 /// repair state that a write left behind, which is why both forms are generated.
 fn run_schedule(items: &[Item], max_len: u32, ch: Shared, b: Bounds, idle_syncs: &[bool]) -> Result<RunInfo, Fail> {
     let st = Rc::new(RefCell::new(SinkState::default()));
-    let mut w = AsyncWriter::new(ScriptSink { st: st.clone(), ch: ch.clone(), b });
+    let sink = ScriptSink { st: st.clone(), ch: ch.clone(), b };
+    let mut w = match crate::sched::take_prebuf() { Some(b) => AsyncWriter::with_buffer(sink, b), None => AsyncWriter::new(sink) };
     w.set_max_len(max_len);
     let mut drops_left = b.drops;
     let mut expected: Vec<u8> = Vec::new();
@@ -192,10 +193,10 @@ fn dfs_items() -> Vec<(Vec<Item>, u32, Vec<bool>)> {
         (vec![Item::Failing(2), Item::V(Val::U(1))], big, vec![true, true]),
         (vec![Item::V(Val::U(9)), Item::TooLong(20), Item::V(Val::B(vec![1]))], 8, vec![true, true, true]),
         (vec![Item::V(Val::R(Rec { a: 1, s: "x".into(), o: None, v: vec![] }))], big, vec![true]),
-        // a refused value straight after a completed write, then a sync / then the next write without any sync
-        (vec![Item::V(Val::U(9)), Item::TooLong(20), Item::V(Val::B(vec![1]))], 8, vec![false, true, true]),
-        (vec![Item::V(Val::U(300)), Item::Failing(3), Item::V(Val::U(1))], big, vec![false, true, false]),
-        (vec![Item::V(Val::U(9)), Item::TooLong(20), Item::V(Val::B(vec![1]))], 8, vec![false, false, true]),
+        // a refused value straight after a completed write (no sync in between), then a sync; a refusal followed at once by a write
+        (vec![Item::V(Val::U(9)), Item::TooLong(20)], 8, vec![false, true]),
+        (vec![Item::V(Val::U(300)), Item::Failing(3)], big, vec![false, true]),
+        (vec![Item::TooLong(20), Item::V(Val::B(vec![1]))], 8, vec![false, true]),
         (vec![Item::V(Val::U(7)), Item::V(Val::U(300))], big, vec![false, true]),
     ]
 }
@@ -223,22 +224,25 @@ fn exhaustive_thorough(i: u64, st: &mut Stats) -> CaseResult { exhaustive(i, st,
 
 fn random_walk(g: &mut Gen, st: &mut Stats) -> CaseResult {
     st.eval();
-    let n = 1 + g.below(4);
+    let n = match g.below(50) { 0 => 40, 1 ..= 5 => 5 + g.below(8), _ => 1 + g.below(4) };
     let max_len: u32 = if g.chance(60) { 64 } else { 512 * 1024 };
     let items: Vec<Item> = (0 .. n).map(|_| match g.below(10) {
         0 => Item::Failing(g.below(6)),
         1 => Item::TooLong(max_len as usize + 1 + g.below(10)),
         2 ..= 5 => Item::V(Val::small(g)),
-        _ => { let v = Val::any(g); if v.encoded().len() > max_len as usize { Item::V(Val::small(g)) } else { Item::V(v) } }
+        _ => { let v = if n > 12 { Val::small(g) } else { Val::any(g) }; if v.encoded().len() > max_len as usize { Item::V(Val::small(g)) } else { Item::V(v) } }
     }).collect();
     let b = Bounds { pending_run: 1 + g.below(4), pending_total: usize::MAX, errors: g.below(4), zeros: g.below(3), drops: g.below(12), small: false };
     let ch: Shared = Rc::new(RefCell::new(TapeChooser::draw(g, 400)));
     let idle: Vec<bool> = (0 .. n).map(|_| g.bool()).collect();
+    let ctor = crate::sched::draw_prebuf(g);
+    st.class(&format!("walk/AsyncWriter::{}", ctor));
     let info = run_schedule(&items, max_len, ch, b, &idle)?;
     if info.cancelled_writes > 0 || info.partials > 0 { st.nontrivial(hash_of(&(format!("{:?}", items).len(), info.partials, info.pendings, info.cancelled_writes, info.errors, info.zeros))) }
     st.class(if info.cancelled_writes > 0 { "walk/cancelled-write-resumed-by-sync" } else if info.partials > 0 { "walk/short-writes" } else { "walk/straight" });
     if info.zeros > 0 { st.class("walk/accept-0") }
     if info.errors > 0 { st.class("walk/transient-error") }
+    if n > 4 { st.class("walk/5-40 values on one writer") }
     if items.windows(2).zip(idle.iter()).any(|(w, s)| !*s && matches!(w[0], Item::V(_)) && !matches!(w[1], Item::V(_))) { st.class("walk/refused-value-straight-after-a-write") }
     Ok(())
 }
@@ -250,7 +254,7 @@ pub fn subs() -> Vec<Sub> {
               kind: SubKind::Enumerate { quick: n, thorough: n, f: exhaustive_quick, complete_quick: true, complete_thorough: false } },
         Sub { prop: "C16", name: "exhaustive-deeper", rule: "the same value lists with <= 4 Pendings in total, 3 drops and the full acceptance spread (thorough; capped at 5*10^7 schedules per subtree)",
               kind: SubKind::Enumerate { quick: 0, thorough: n, f: exhaustive_thorough, complete_quick: false, complete_thorough: true } },
-        Sub { prop: "C16", name: "random-walks", rule: "1-4 generated values (payloads up to 70 KB, failing and over-long values mixed in), schedule drawn from the tape with up to 4 consecutive Pendings, 3 errors, 2 accept-0 and 11 drops",
+        Sub { prop: "C16", name: "random-walks", rule: "1-4 generated values, in 12 % of the walks 5-40 (payloads up to 70 KB, failing and over-long values mixed in), schedule drawn from the tape with up to 4 consecutive Pendings, 3 errors, 2 accept-0 and 11 drops",
               kind: SubKind::Random { quick: 300_000, thorough: 3_000_000, tape: 2048, f: random_walk } },
     ]
 }
